@@ -905,7 +905,7 @@ func main() {
 	// convergence: every live node applied the same index, and at least everything acknowledged
 	conv := 0
 	why := ""
-	dl := time.Now().Add(6 * time.Second)
+	dl := time.Now().Add(15 * time.Second) // ends as soon as the replicas agree: only costs time when they do not
 	for time.Now().Before(dl) {
 		same := true
 		var d0 string
@@ -930,7 +930,7 @@ func main() {
 		time.Sleep(20 * time.Millisecond)
 	}
 	if conv == 0 {
-		why = "replica contents still differ 6 s after the faults stopped"
+		why = "replica contents still differ 15 s after the faults stopped"
 	}
 	close(stopTicks)
 	for _, n := range w.nodes {
